@@ -1,35 +1,42 @@
 (** Model of engine.rs [pattern_matches] (KEYS / SCAN MATCH): iterative glob
     matcher with single-star backtracking, '?', '[...]' classes with '^'
-    negation and ranges, and backslash escapes.  Works on characters of the
+    negation, ranges and escapes (after 5de9d19: as in Redis), and backslash escapes.  Works on characters of the
     lossily decoded strings; the model works on bytes (equal for ASCII and for
     isolated invalid bytes, see DESIGN.md class lossy-match). *)
 From Ferrous Require Import Base.Bytes.
 Open Scope Z_scope.
 
-(** offset of the first ']' in [p] (p starts at the '[') *)
-Fixpoint find_close (p : bytes) (i : nat) : option nat :=
-  match p with
-  | [] => None
-  | c :: r => if c =? 93 then Some i else find_close r (S i)
-  end.
-
-(** items of a class body: [body] = chars between start and class_end *)
-Fixpoint class_match (fuel : nat) (body : bytes) (tc : Z) : bool :=
-  match fuel with
-  | O => false
-  | S f =>
-    match body with
-    | [] => false
-    | a :: rest =>
-        match rest with
-        | m :: hi :: rest' =>
-            (* i + 2 < class_end  <->  at least 3 chars remain in the body *)
-            if m =? 45 then
-              if (a <=? tc) && (tc <=? hi) then true else class_match f rest' tc
-            else if tc =? a then true else class_match f rest tc
-        | _ => if tc =? a then true else class_match f rest tc
+(** the class loop of both matchers after 5de9d19 (one pass like Redis' stringmatchlen), from
+    the byte after '[' (and after '^'): a backslash followed by another byte takes that byte
+    literally; `x-y` (when at least three bytes remain) is the range between the two, ends
+    swapped when reversed; the first unescaped ']' closes the class; a class that is never
+    closed runs to the end of the pattern.  No early exit.  Result: (matched, pattern after
+    the class). *)
+Fixpoint class_scan (q : bytes) (tc : Z) (matched : bool) : bool * bytes :=
+  match q with
+  | [] => (matched, [])                                   (* i == len: unterminated *)
+  | a :: r =>
+      if a =? 93 then (matched, r)                        (* pattern[i] == ']': step over it *)
+      else
+        match r with
+        | x :: r2 =>
+            if a =? 92 then class_scan r2 tc (matched || (tc =? x))       (* '\\' and i + 1 < len *)
+            else
+              match r2 with
+              | b :: r3 =>
+                  if x =? 45 then                         (* i + 2 < len && pattern[i+1] == '-' *)
+                    class_scan r3 tc (matched || ((Z.min a b <=? tc) && (tc <=? Z.max a b)))
+                  else class_scan r tc (matched || (tc =? a))
+              | [] => class_scan r tc (matched || (tc =? a))
+              end
+        | [] => (matched || (tc =? a), [])                (* the last byte of the pattern (also a lone '\\') *)
         end
-    end
+  end.
+(** negate = p_idx + 1 < len && pattern[p_idx + 1] == '^'; Some rest = matched != negate *)
+Definition class_try (p' : bytes) (tc : Z) : option bytes :=
+  let negate := match p' with c :: _ => c =? 94 | [] => false end in
+  match class_scan (if negate then tl p' else p') tc false with
+  | (m, rest) => if negb (Bool.eqb m negate) then Some rest else None
   end.
 
 Inductive gstep := GAdvance (p t : bytes) | GStar (p : bytes) | GFail.
@@ -42,16 +49,7 @@ Definition glob_try (p : bytes) (tc : Z) (t' : bytes) : gstep :=
       if pc =? 63 then GAdvance p' t'                       (* '?' *)
       else if pc =? 42 then GStar p'                        (* '*' *)
       else if pc =? 91 then                                 (* '[' *)
-        match find_close p 0 with
-        | None => GFail
-        | Some e =>
-            (* class_end = p_idx + e; chars strictly between *)
-            let inner := firstn (e - 1) p' in
-            let negate := match inner with c :: _ => c =? 94 | [] => false end in
-            let body := if negate then tl inner else inner in
-            let matched := class_match (S (length body)) body tc in
-            if negb (Bool.eqb matched negate) then GAdvance (skipn e p') t' else GFail
-        end
+        match class_try p' tc with Some rest => GAdvance rest t' | None => GFail end
       else if (pc =? 92) && negb (match p' with [] => true | _ => false end) then   (* '\\' *)
         match p' with
         | q :: p'' => if q =? tc then GAdvance p'' t' else GFail
